@@ -504,13 +504,16 @@ package server
 //@ note trusted: starts the follower cursor (goroutines, streams); truncateFollowerIfNeeded inside it is verified
 
 // Replay on becoming leader: the log is opened right after the commit offset stored in
-// the database, and every entry from there on is applied at its own offset, in log order.
+// the database, and every entry from there on is applied at its own offset, in log order;
+// the stored sessions are re-armed only after the replay has succeeded (a session created
+// in the replayed tail is in the database by then).
 //
 //@ func leaderController.applyAllEntriesIntoDB(lc) (err)
-//@ property C07 C05
+//@ property C07 C05 C14
 //@ requires lc.db != nil && lc.wal != nil && lc.log != nil && lc.quorumAckTracker != nil && lc.sessionManager != nil && as(lc.wal, *wal.wal).readLatency != nil && as(lc.wal, *wal.wal).lastSyncedOffset.v < 4611686018427387904
 //@ assume at call ReadCommitOffset#0: result1 == nil ==> -1 <= result0 && result0 < 4611686018427387904 because "the stored commit offset is an offset of this log or -1"
 //@ assert at call NewReader#0: after == dbCommitOffset
+//@ assert at call Initialize#0: callres_applyAllEntriesIntoDBLoop_0 == nil
 //@ modifies *
 //@ preserves lc.term, lc.status, lc.log, lc.leaderElectionHeadEntryId
 
